@@ -43,6 +43,13 @@ type c08Leaf struct {
 	json string // JSON field name of the leaf
 }
 
+// the encodings returned for the previous payload of the same codec, and copies of what they were
+var c08Prev struct {
+	codec          string
+	pb, js         []byte
+	pbCopy, jsCopy string
+}
+
 var c08OneofAlts = map[reflect.Type][]reflect.Type{}
 var c08OnPath = map[reflect.Type]int{}
 
@@ -336,6 +343,11 @@ func c08CheckPayload(c *c08Codec, root reflect.Value, leafs []c08Leaf, vals []re
 	if err != nil {
 		return "proto-marshal-error:" + c.Name + ":" + seg, desc + err.Error()
 	}
+	// what an EARLIER call returned belongs to its caller: it must not change when the marshaler is used again
+	if c08Prev.codec == c.Name && (string(c08Prev.pb) != c08Prev.pbCopy || string(c08Prev.js) != c08Prev.jsCopy) {
+		c08Prev.codec = ""
+		return "earlier-encoding-changed-by-a-later-marshal-call:" + c.Name, desc + " (the bytes returned for the previous payload were modified)"
+	}
 	if c.Size == nil {
 		// the wrapper has no size method
 	} else if n := c.Size(p); n != len(pb) {
@@ -363,6 +375,10 @@ func c08CheckPayload(c *c08Codec, root reflect.Value, leafs []c08Leaf, vals []re
 	if err != nil || !bytes.Equal(pb, pb2) {
 		return "cross-codec-bytes-differ:" + c.Name + ":" + seg, desc + " json=" + c08Trunc(string(js))
 	}
+	if string(pb) != string(append([]byte(nil), pb...)) || !bytes.Equal(pb, pb2) {
+		return "cross-codec-bytes-differ:" + c.Name + ":" + seg, desc
+	}
+	c08Prev.codec, c08Prev.pb, c08Prev.pbCopy, c08Prev.js, c08Prev.jsCopy = c.Name, pb, string(pb), js, string(js)
 	// alternative spellings: the deviating 64-bit integer leaf written as a JSON number instead of a string
 	for _, l := range leafs {
 		k := l.typ.Kind()
